@@ -285,6 +285,37 @@ pub fn inventory(ts: TokenStream) -> Result<Vec<Value>, String> {
     let file = syn::parse2::<syn::File>(ts).map_err(|e| e.to_string())?;
     let mut out = Vec::new();
     walk("", &file.items, &mut out);
+    // a derive that meets a hand-written impl of the same trait for the same type (same module):
+    // two impls of one trait, E0119
+    let last = |p: &str| -> String {
+        let p = p.split('<').next().unwrap_or(p);
+        p.rsplit("::").next().unwrap_or(p).trim().to_string()
+    };
+    let impls: Vec<(String, String, String)> = out
+        .iter()
+        .filter(|v| v["kind"] == "impl" && v["trait_"].as_str().map(|t| !t.is_empty()).unwrap_or(false))
+        .map(|v| {
+            (
+                v["mod"].as_str().unwrap_or("").to_string(),
+                v["for_"].as_str().unwrap_or("").to_string(),
+                last(v["trait_"].as_str().unwrap_or("")),
+            )
+        })
+        .collect();
+    for v in out.iter_mut() {
+        if v["kind"] == "struct" || v["kind"] == "enum" {
+            let (m, n) = (v["mod"].as_str().unwrap_or("").to_string(), v["name"].as_str().unwrap_or("").to_string());
+            let conflicts: Vec<String> = v["derives"]
+                .as_array()
+                .cloned()
+                .unwrap_or_default()
+                .iter()
+                .filter_map(|d| d.as_str().map(|d| d.to_string()))
+                .filter(|d| impls.iter().any(|(im, f, t)| *im == m && *f == n && *t == last(d)))
+                .collect();
+            v["derive_conflicts"] = json!(conflicts);
+        }
+    }
     Ok(out)
 }
 
